@@ -1,24 +1,26 @@
 #!/bin/bash
 # usage: try_seeded.sh <seeded-dir> [check args]   (seeded-dir holds patch.diff and demo.py)
 # 1. confirm in a scratch worktree: tests still pass with the patch, demo fails with / passes without
-# 2. apply to /repo, run the check (output redirected to a scratch dir), undo straight afterwards
+# 2. run the check against that worktree with the patch applied (VERIF_REPO=<worktree>; same effect as
+#    `git -C /repo apply` + check + `git -C /repo checkout -- .` but cannot disturb anything else that
+#    reads /repo while it runs); output goes to a scratch dir; everything is removed afterwards
 set -u
 D=$(readlink -f "$1"); shift
 WT=$(mktemp -d /var/tmp/wt-seeded-XXXX); rmdir $WT
 git -C /repo worktree add -q --detach $WT HEAD || exit 2
 cd $WT
-git apply $D/patch.diff || { echo "PATCH DOES NOT APPLY"; git -C /repo worktree remove --force $WT; exit 2; }
+git apply $D/patch.diff || { echo "PATCH DOES NOT APPLY"; cd /; git -C /repo worktree remove --force $WT; exit 2; }
 T=$(/venv/bin/python -m pytest -q -p no:cacheprovider tests 2>&1 | tail -1); echo "tests with patch: $T"
 mkdir -p _out; cp $D/demo.py _out/demo.py; sed -i "s#/tmp/wt-[a-z0-9]*-[0-9]*#$WT#g" _out/demo.py
 /venv/bin/python _out/demo.py >/dev/null 2>&1; echo "demo with patch rc=$?"
 git apply -R $D/patch.diff
 /venv/bin/python _out/demo.py >/dev/null 2>&1; echo "demo without patch rc=$?"
-cd /verif; git -C /repo worktree remove --force $WT
+git apply $D/patch.diff; rm -rf _out
+cd /verif
 OUT=$(mktemp -d /var/tmp/seeded-out-XXXX)
-git -C /repo apply $D/patch.diff || exit 2
-VERIF_OUT_DIR=$OUT /verif/check quick "$@" > $OUT/log 2>&1; RC=$?
-git -C /repo checkout -- . ; git -C /repo status --short | head -3
+VERIF_REPO=$WT VERIF_OUT_DIR=$OUT /verif/check quick "$@" > $OUT/log 2>&1; RC=$?
+git -C /repo worktree remove --force $WT
 echo "check rc=$RC"; grep -c "^VIOLATION" $OUT/log; grep "^  O" $OUT/log | cut -c1-150 | sort | uniq -c | sort -rn | head -8; tail -2 $OUT/log
-mkdir -p $D/check-output; cp $OUT/log $D/check-output/quick.log; ls $OUT/replays 2>/dev/null | head -3 
+mkdir -p $D/check-output; cp $OUT/log $D/check-output/quick.log
 F=$(ls $OUT/replays/*.json 2>/dev/null | head -1); [ -n "$F" ] && cp $F $D/check-output/
 rm -rf $OUT
